@@ -41,6 +41,29 @@ impl Read for Frag {
     }
 }
 
+/// whole-buffer source: every read is served in full (the stream model of the Verus contracts)
+fn plain() -> Frag {
+    Frag { data: kani::any(), pos: 0, avail: 8, chunk: 8, hiccup: false, eof: true }
+}
+
+#[kani::proof]
+#[kani::unwind(10)]
+fn reader_u16_u32_blocking_plain() {
+    let f = plain();
+    let d = f.data;
+    let mut r = IppReader::new(f);
+    let res = r.read_header();
+    let f = r.into_inner();
+    assert!(res.is_ok());
+    check(d, 8, res, f.pos);
+}
+
+#[kani::proof]
+#[kani::unwind(6)]
+fn reader_u16_u32_async_plain() {
+    nb::ready_at_once(plain());
+}
+
 fn frag(avail: usize, eof: bool, hiccup: bool) -> Frag {
     // one byte per read call: the most adversarial fragmentation for fixed-width fields
     Frag { data: kani::any(), pos: 0, avail, chunk: 1, hiccup, eof }
@@ -90,7 +113,30 @@ mod nb {
     }
 
     pub fn nonblocking(avail: usize, eof: bool, hiccup: bool) {
-        let f = frag(avail, eof, hiccup);
+        nonblocking_on(frag(avail, eof, hiccup), avail)
+    }
+
+    /// a source that is never not-ready: the future must complete on its first poll
+    pub fn ready_at_once(f: Frag) {
+        let d = f.data;
+        let mut r = AsyncIppReader::new(AFrag(f));
+        let res = {
+            let mut fut = std::pin::pin!(r.read_header());
+            let mut cx = Context::from_waker(Waker::noop());
+            match fut.as_mut().poll(&mut cx) {
+                Poll::Ready(x) => x,
+                Poll::Pending => {
+                    assert!(false, "not-ready result from a source that is always ready");
+                    return;
+                }
+            }
+        };
+        let f = r.into_inner().0;
+        assert!(res.is_ok());
+        check(d, 8, res, f.pos);
+    }
+
+    pub fn nonblocking_on(f: Frag, avail: usize) {
         let d = f.data;
         let mut r = AsyncIppReader::new(AFrag(f));
         let res = {
